@@ -8,6 +8,7 @@ import Bandit.Gen.Defaults
 import Bandit.Proofs.Total2
 import Bandit.Proofs.Loc
 import Bandit.Fast
+import Bandit.Lines
 /-!
 # Driver core: JSON helpers and the `scan` family of ops.
 
@@ -109,9 +110,13 @@ def opScan (j : Json) : Except String Json := do
   let sel : Option (List Str) := match j.getObjVal? "select" with
     | .ok (.arr a) => some (a.toList.filterMap fun x => x.getStr?.toOption.map String.toList)
     | _ => none
-  let lines : List Str := match j.getObjVal? "lines" with
-    | .ok (.arr a) => a.toList.filterMap fun x => x.getStr?.toOption.map String.toList
-    | _ => []
+  -- `text` = the decoded text with its line ends as they are in the file: the model splits it itself (`uniLines`, Bandit/Lines.lean);
+  -- `lines` (already split by the caller) is still accepted
+  let lines : List Str := match j.getObjVal? "text" with
+    | .ok (.str t) => uniLines t.toList
+    | _ => match j.getObjVal? "lines" with
+      | .ok (.arr a) => a.toList.filterMap fun x => x.getStr?.toOption.map String.toList
+      | _ => []
   let nm : NosecMap := if ignoreNosec then [] else
     -- `nosec_lines[lineno] = …` is a dict assignment: a later comment token on the same line replaces an earlier one
     -- (two comment tokens on one line happen when `tokenize` does not end the line at a lone CR); `NosecMap.get` takes the first entry
@@ -157,10 +162,14 @@ def opCandidate (j : Json) : Except String Json := do
   let n ← getStr j "s"
   return Json.bool (Plugins.isCandidate n.toList)
 
+/-- `{"op":"unilines","text":…}` → the lines a text-mode file yields for that decoded text -/
+def opUniLines (j : Json) : Except String Json := do
+  let t ← getStr j "text"
+  return Json.arr ((uniLines t.toList).map (fun l => Json.str (strOf l))).toArray
 
 abbrev Op := String × (Json → Except String Json)
 
 def coreOps : List Op :=
-  [("scan", opScan), ("nosec", opNosec), ("fnmatch", opFnmatch), ("candidate", opCandidate)]
+  [("scan", opScan), ("nosec", opNosec), ("fnmatch", opFnmatch), ("candidate", opCandidate), ("unilines", opUniLines)]
 
 end Drv
